@@ -502,6 +502,15 @@ func (c16) Check(c *core.Case, env *core.Env, res zzsim.Result, v *core.Verdict)
 		if len(o.removeRets) == 0 && terms > 0 && o.removeCall == 0 {
 			bad("terminated-spuriously", "%s: termination hook ran although nobody removed the object", name)
 		}
+		if o.removeCall == 0 {
+			// nobody ever asked to remove this object: its subscribers must
+			// not have been told anything, whatever happened to the others
+			for i, sub := range o.subs {
+				if sub.closed {
+					bad("subscriber-of-a-live-object-told", "%s was never removed but the channel of its subscriber %d was closed", name, i)
+				}
+			}
+		}
 		if len(o.removeRets) > 0 {
 			// subscribers acknowledged before anybody asked for the removal
 			for i, sub := range o.subs {
